@@ -166,17 +166,23 @@ def r03c(ctx, P, commit):
         persist_err += outcome_arms(commit, ps)["err"]
     ok_arms = []
     err_arms = []
+    ok_edges = set()
+    err_edges = set()
     for st in stores:
         arms = outcome_arms(commit, st)
         ok_arms += arms["ok"]
         err_arms += arms["err"]
+        # the same outcome may be tested more than once (`if let Err(e) = &r {log}` ... `if r.is_ok() && ..`): a path that took the
+        # failure edge of one test cannot take the success edge of another
+        ok_edges |= set(arms["ok_edges"])
+        err_edges |= set(arms["err_edges"])
     for c in cleanups:
-        if not persist_err or not ok_arms:
+        if not persist_err or not (ok_arms or ok_edges):
             ctx.ob(rid, "%s:%s:cleanup-vs-rollback-store" % (rid, commit.short), False,
                    "cannot identify the failure arm of the persist step / the success arm of the rollback store", c.loc())
             continue
-        bypass = any(c.b in commit.reachable_flag_sensitive(pe, avoid=set(ok_arms)) for pe in persist_err)
-        from_err = any(c.b in commit.reachable_flag_sensitive(eb) for eb in err_arms)
+        bypass = any(c.b in commit.reachable_flag_sensitive(pe, avoid=set(ok_arms), avoid_edges=ok_edges) for pe in persist_err)
+        from_err = any(c.b in commit.reachable_flag_sensitive(tgt, avoid_edges=ok_edges) for (_, tgt) in err_edges)
         ok = not bypass and not from_err
         ctx.ob(rid, "%s:%s:cleanup-vs-rollback-store" % (rid, commit.short), ok,
                "cleanup at %s runs only after a rollback Manifest::store succeeded" % c.loc() if ok else
